@@ -32,8 +32,11 @@ NOTE = (
     "seeded events; opt_einsum's contract_path is used as the real code uses it (trusted to return a valid pairwise path)"
 )
 TECHNIQUE = "symbolic execution of tf_pwa.einsum.einsum on tensors of symbolic scalars against a reference contraction; per-element polynomial identities decided by z3; strategy models compared on symbolic couplings"
-EXPLANATION = CLAIM
+CLAIM_EXTRA = 'The cached-integral normalisation (opt_int.build_int_matrix at a concrete parameter point with signed event weights, build_params_matrix at symbolic couplings) is decided to equal sum_k w_k f(y_k) for every coupling value.'
+NOTE_EXTRA = 'of the cached-integral likelihood models only the integral matrix algebra is encoded (tf.function wrappers, batching, gradients are not)'
+EXPLANATION = CLAIM + " " + CLAIM_EXTRA
 FUNCTIONS = [
+    "tf_pwa/experimental/opt_int.py:build_int_matrix", "tf_pwa/experimental/opt_int.py:build_params_matrix", "tf_pwa/experimental/opt_int.py:build_sum_amplitude", 
     "tf_pwa/einsum.py:einsum", "tf_pwa/einsum.py:replace_ellipsis", "tf_pwa/einsum.py:remove_size1", "tf_pwa/einsum.py:ordered_indices", "tf_pwa/einsum.py:tensor_einsum_reduce_sum",
     "tf_pwa/amp/amp.py:CachedAmpAmplitudeModel.pdf", "tf_pwa/amp/amp.py:CachedShapeAmplitudeModel.pdf", "tf_pwa/amp/amp.py:FactorAmplitudeModel.pdf",
     "tf_pwa/amp/preprocess.py:CachedAmpPreProcessor.build_cached", "tf_pwa/amp/preprocess.py:CachedShapePreProcessor.build_cached", "tf_pwa/amp/preprocess.py:CachedAnglePreProcessor.build_cached",
